@@ -510,7 +510,7 @@ example : ∃ sched r route, sched.length ≤ 6 ∧ exC0.runVertex 0 (some 3) sc
       (route.map (fun b => b.access + b.traversal)).sum ≤ cost exC0.costOf es := by
   have W : exC0.WellFormedDistance .meters :=
     ⟨exC_wellFormed.trav, exC_wellFormed.noAccess, exC_wellFormed.noTurn, exC_wellFormed.slot,
-      exC_wellFormed.cost_range, exC_wellFormed.frontier_total⟩
+      exC_wellFormed.cost_range, exC_wellFormed.frontier_total, exC_wellFormed.gc_nonneg⟩
   have G : exC0.GraphOK 0 true :=
     ⟨(exC_graphOK 0 (by decide) true).adj, (exC_graphOK 0 (by decide) true).inc_range,
       (exC_graphOK 0 (by decide) true).gc_source, (exC_graphOK 0 (by decide) true).gc_range⟩
